@@ -147,7 +147,7 @@ FamC07(dummy) ==
   UNION {UNION {{Run([P EXCEPT !.macro = m], pl, {}) : m \in MacroNames(P.kind)} :
                 pl \in FailPlans(ItemIds(P, {"and_then"}), 1) \cup {<<F(IdOf(0, 0, 1)), Rcv(IdOf(0, 0, 2))>>}} :
          P \in {Build(kd, "res", pr, StepC07, NoName, ExprInit, IF h = "dflt" THEN DefaultHandler(kd) ELSE "none") : kd \in Kinds8,
-                  pr \in IF Tier = "quick" THEN {<<1>>, <<2, 1>>, <<1, 2, 2>>} ELSE Profiles(3, 2),
+                  pr \in IF Tier = "quick" THEN {<<1>>, <<2, 1>>, <<1, 2, 2>>, <<1, 3, 2>>} ELSE Profiles(3, 2) \cup {<<1, 3, 2>>, <<1, 3, 3>>, <<3, 1, 3>>},
                   h \in {"none", "dflt"}}}
 
 \* ---- C08: thread identity.  The first item of every (branch, step) is gated, so all threads of a
